@@ -154,6 +154,14 @@ def transcript(sc, d):
             if before != after:
                 mbad.append([x.id, before, after])
         out['caller_mutation_bad'] = mbad[:3]
+        # two versions of one lexicon selected together: their synsets tie on id and ILI
+        if any(l.id == 'xl' and l.version == '2' for l in wn.lexicons()):
+            wx3 = wn.Wordnet('xl:1 xl:2', expand='xe:1')
+            ref3 = lambda s_: [s_.id, s_._ili, (s_.lexicon().version if s_._id else None)]
+            ys3 = [y_ for y_ in wx3.synsets() if y_.id in ('xl-p', 'xl-q')]
+            out['two_versions_taxonomy'] = [[ref3(a_), ref3(b_), [ref3(x) for x in wn.taxonomy.common_hypernyms(a_, b_)],
+                                             [ref3(x) for x in wn.taxonomy.lowest_common_hypernyms(a_, b_)],
+                                             [[ref3(x) for x in pth] for pth in a_.hypernym_paths()]] for a_ in ys3 for b_ in ys3]
         # lookups with a lemmatizer
         lw = wn.Wordnet('a:1', lemmatizer=Morphy(wn.Wordnet('a:1')))
         out['lookups'] = [[q, [x.id for x in lw.words(q)], [x.id for x in lw.synsets(q)], [x.id for x in wn.words(q)]] for q in sc['queries']]
